@@ -50,3 +50,16 @@ Print diag_mism_hist.
    model (as the code) answers every balance query with the GetArray error *)
 Definition mism_stale := Eval vm_compute in failing (fun c : Z * Z * bool => snd c) cases_stale.
 Print mism_stale.
+
+(* concurrency group: every answer given while blocks were being executed equals the
+   model's answer in ONE of the states the node went through during the call *)
+Definition conc_q_model (states : list (option (node * pool))) (q : Z * Z * cq) : bool :=
+  let '(lo, hi, c) := q in
+  match c with
+  | CQBal addrs r => exists_state states lo hi (fun n p => bal_matches (q_balance true n p addrs) r)
+  | CQTx kind addrs rows => exists_state states lo hi (fun n p => eqb_list eqb_row (q_txns n p kind addrs) rows)
+  end.
+Definition corr_conc (c : conc_case) : bool :=
+  let states := conc_states node_empty (fst c) in forallb (conc_q_model states) (snd c).
+Definition mism_conc := Eval vm_compute in failing corr_conc cases_conc.
+Print mism_conc.
